@@ -87,6 +87,13 @@ def stmt_defs(st):
         if ch:
             val = ast.Tuple(elts=list(c.args) + [k.value for k in c.keywords], ctx=ast.Load())
             out.append(Def(".".join(ch), st, val, "substore"))
+    elif isinstance(st, ast.Expr) and isinstance(st.value, ast.Call) and isinstance(st.value.func, ast.Attribute) and st.value.args and isinstance(st.value.args[0], ast.Name) and (
+        (st.value.func.attr == "at" and isinstance(st.value.func.value, ast.Attribute)) or (st.value.func.attr in ("copyto", "put", "place", "putmask", "fill_diagonal", "put_along_axis") and isinstance(st.value.func.value, ast.Name) and st.value.func.value.id in ("np", "numpy"))
+    ):
+        # library calls that write into their first argument: np.add.at(acc, idx, vals), np.copyto(dst, src), np.put(a, idx, v)
+        c = st.value
+        val = ast.Tuple(elts=list(c.args[1:]) + [k.value for k in c.keywords], ctx=ast.Load())
+        out.append(Def(c.args[0].id, st, val, "substore"))
     # walrus inside the statement's own expressions (not nested bodies)
     for e in header_exprs(st):
         for n in walk_no_nested(e):
